@@ -31,6 +31,11 @@ class TLCResult:
         m = re.search(r"depth of the complete state graph search is (\d+)", out)
         self.depth = int(m.group(1)) if m else 0
         self.no_error = "No error has been found" in out
+        if "Simulation using seed" in out and "Error" not in out:
+            self.no_error = True
+            m3 = re.search(r"The number of states generated: (\d+)", out)
+            if m3:
+                self.generated = self.distinct = int(m3.group(1))
         m = re.search(r"Invariant (\S+) is violated", out)
         self.violated = m.group(1) if m else None
         if self.violated is None:
